@@ -45,8 +45,9 @@ def num(v):
 class Structure:
     """a model instance: builds {alternative: probability expression} and {alternative: log-probability}"""
 
-    def __init__(self, family, alts, nests=None, mu=False, alphas=None, legacy=False):
+    def __init__(self, family, alts, nests=None, mu=False, alphas=None, legacy=False, av_order=None):
         self.family, self.alts, self.nests, self.mu, self.alphas, self.legacy = family, alts, nests, mu, alphas, legacy
+        self.av_order = av_order  # order in which the availability dictionary lists the alternatives
 
     def params(self):
         names = [f'V{i}' for i in self.alts]
@@ -86,7 +87,7 @@ class Structure:
         for i in self.alts:
             v = sym_beta(f'V{i}', val(f'V{i}'))
             V[i] = v + (shift if shift is not None else 0) if shift is not None else v
-        av = None if avail is None else {i: num(avail[i]) for i in self.alts}
+        av = None if avail is None else {i: num(avail[i]) for i in (self.av_order or self.alts)}
         P, LP = {}, {}
         for i in self.alts:
             ch = num(i)
@@ -132,6 +133,8 @@ class Structure:
 def structures(tier):
     A3, A4 = (1, 3, 7), (1, 3, 7, 9)
     S = [('logit-3', Structure('logit', A3)), ('mev-3', Structure('mev', A3)),
+         ('logit-3-avorder', Structure('logit', A3, av_order=(7, 1, 3))),
+         ('nested-3-alone-avorder', Structure('nested', A3, nests=[(3, 1)], av_order=(3, 7, 1))),
          ('nested-3-all', Structure('nested', A3, nests=[(1, 3, 7)])),
          ('nested-3-alone', Structure('nested', A3, nests=[(3, 1)])),
          ('nested-3-alone-legacy', Structure('nested', A3, nests=[(3, 1)], legacy=True)),
@@ -261,6 +264,18 @@ def check_structure(c, name, st: Structure, avail):
                 obs.append(D.holds(z3.And(z >= 0, z <= 1), f'0 <= P({i}) <= 1'))
     except (Unsupported, TooBig) as e:
         obs.append(('normalisation of the probabilities', 'unknown', f'{type(e).__name__}: {str(e)[:200]}', None))
+    # --- the pure-Python evaluator agrees on unavailable alternatives (probability zero)
+    if st.family == 'logit' and avail is not None:
+        for i in st.alts:
+            if not avail[i]:
+                try:
+                    v = P[i].get_value()
+                    ok = isinstance(v, (int, float, np.floating)) and float(v) == 0.0
+                    obs.append((f'Python evaluator: P({i}) = 0 when unavailable', 'proved' if ok else 'cex', f'{v!r}', None))
+                except symx.PathAbort:
+                    raise
+                except Exception as e:  # noqa: BLE001
+                    obs.append((f'Python evaluator: P({i}) = 0 when unavailable', 'cex', f'{type(e).__name__}: {e}', None))
     # --- exp(log-model) = model, one normaliser per alternative
     if LP:
         for i in st.alts:
@@ -387,6 +402,10 @@ def concrete_run(case):
                     problems.append(f'P({i}) = {p[i]} outside [0,1]')
                 if av is not None and not av[i] and abs(p[i]) > 1e-12:
                     problems.append(f'P({i}) = {p[i]} although unavailable')
+                if av is not None and not av[i] and st.family == 'logit':
+                    pv = float(P[i].get_value())
+                    if pv != 0.0:
+                        problems.append(f'Python evaluator gives P({i}) = {pv} although unavailable')
                 if LP and (av is None or av[i]):
                     lp = float(LP[i].get_value_c(prepare_ids=True))
                     if abs(math.exp(lp) - p[i]) > 1e-7:
